@@ -45,7 +45,10 @@ def variants_conelp(cvxopt, PR, pr, rng, max_variants, focus=None):
     def opts(rng):
         o = {'show_progress': False}
         if rng.random() < 0.5:
-            o['feastol'] = rng.choice([1e-5, 1e-7, 1e-8]); o['abstol'] = rng.choice([1e-5, 1e-7, 1e-9]); o['reltol'] = rng.choice([1e-4, 1e-6, 1e-8])
+            if rng.random() < 0.4:      # far tighter than the defaults: an answer computed with the default tolerances does not pass
+                o['feastol'] = 1e-10; o['abstol'] = 1e-10; o['reltol'] = 1e-10
+            else:
+                o['feastol'] = rng.choice([1e-5, 1e-7, 1e-8]); o['abstol'] = rng.choice([1e-5, 1e-7, 1e-9]); o['reltol'] = rng.choice([1e-4, 1e-6, 1e-8])
         if rng.random() < 0.3: o['refinement'] = rng.randint(0, 2)
         return o
     def tol(o): return (o.get('feastol', 1e-7), o.get('abstol', 1e-7), o.get('reltol', 1e-6))
